@@ -64,7 +64,9 @@ async def segment_fetcher(app: NDNApp, name: NonStrictName, timeout=4000, retry_
         seg_no = 0
     # Following Interests
     while True:
-        name[-1] = Component.from_segment(seg_no)
+        # The name list returned by the app is shared with every other waiter satisfied by the same Data:
+        # build a new name instead of writing into it.
+        name = name[:-1] + [Component.from_segment(seg_no)]
         name, meta, content = await retry(False)
         yield content
         if meta.final_block_id == name[-1]:
